@@ -112,6 +112,8 @@ def parseFn (n : Nat) : Nat → List String → Option (QFn × List String)
         let (f, r') ← parseFn n fuel r
         some (.comp f (List.map (powN · p))
           (fun x y => List.zipWith (fun xi yi => (p : Rat) * powN xi (p - 1) * yi) x y), r')
+    | "dconj" :: r => do
+        let (f, r') ← parseFn n fuel r; some (.dconj f, r')
     | "menv" :: s :: r => do
         let σ ← parseRat s
         if σ ≤ 0 then none
